@@ -105,6 +105,10 @@ type World struct {
 	// TrackCatalog: the source catalog lists a collection as dropped once its drop message has been produced (MarkSrcDropped),
 	// and a Milvus target no longer has a collection whose drop request took effect
 	TrackCatalog bool
+	// MQFailPrefix: opening a stream on a source physical channel whose name starts with it fails (connection check of a
+	// new channel handler): a collection start that fails AFTER the channel manager has registered the collection
+	MQFailPrefix string
+	factories    []*pfake.Factory
 	srcDropped   map[string]bool
 	tgtGone      map[string]bool
 	mu      sync.Mutex
@@ -125,6 +129,24 @@ type World struct {
 
 func NewWorld(uri string) *World {
 	return &World{tasks: map[string][]byte{}, pos: map[string][]byte{}, RStore: pfake.NewRStore(), Epoch: 1, Colls: map[string]*Coll{}, URI: uri}
+}
+
+// SetMQFail makes (prefix != "") or stops making (prefix == "") stream opens on matching source pchannels fail.
+func (w *World) SetMQFail(prefix string) {
+	w.mu.Lock()
+	defer w.mu.Unlock()
+	w.MQFailPrefix = prefix
+	for _, f := range w.factories {
+		f.FailChannelPrefix = prefix
+	}
+}
+
+func (w *World) newFactory() *pfake.Factory {
+	w.mu.Lock()
+	defer w.mu.Unlock()
+	f := &pfake.Factory{FailChannelPrefix: w.MQFailPrefix}
+	w.factories = append(w.factories, f)
+	return f
 }
 
 // MarkSrcDropped records that the source has dropped the collection (its catalog record goes to state dropped).
@@ -662,7 +684,7 @@ func (inc *Inc) parts(info *meta.TaskInfo) (*server.VerifEntityParts, error) {
 	if err != nil {
 		return nil, err
 	}
-	cm, err := cdcreader.NewReplicateChannelManager(inc.TT, &pfake.Factory{}, inc.Target, config.ReaderConfig{
+	cm, err := cdcreader.NewReplicateChannelManager(inc.TT, w.newFactory(), inc.Target, config.ReaderConfig{
 		MessageBufferSize: inc.Cfg.SourceConfig.ReadChanLen, TTInterval: inc.Cfg.SourceConfig.TimeTickInterval,
 		Retry: inc.Cfg.Retry, ReplicateID: w.URI,
 	}, mo, rm, func(string, *msgstream.MsgPack) {}, w.downstream())
